@@ -228,6 +228,9 @@ class InventoryFileReader:
                 yield buf[:pos].decode()
                 buf = buf[pos + 1 :]
                 pos = buf.find(b"\n")
+        if buf:
+            # last line without a terminating newline
+            yield buf.decode()
 
 
 @functools.lru_cache(maxsize=256)
